@@ -3,6 +3,7 @@ import Driver.C02
 import LettreVerif.Model.Builder
 import LettreVerif.Model.Date
 import LettreVerif.Spec.StructuredDec
+import LettreVerif.Model.MailboxEnc
 namespace LV.Driver.C17
 open LV LV.Driver LV.Mailbox LV.Driver.C16
 
@@ -90,13 +91,18 @@ def mboxOpK (hdrName : String) : List String → String
                 | some ph =>
                   -- UTF-8 only inside an internationalized address: the display name is written in ASCII
                   if ph.any (fun b => 128 ≤ b.toNat) then propfail "display-name-with-raw-non-ASCII-octets" else
-                  if !longLinesHaveLongToken blk then propfail "line-over-78-without-a-token-that-long" else
                   let expName : Bytes := match n with | some x => encodeUtf8 x | none => []
                   let dec := if ph.isEmpty then some [] else StructuredDec.phraseDecode ph
                   if dec != some expName then propfail "display-name-does-not-decode-to-the-name"
                   else
                     let md := match show1 m with | some t => s!"ok:{charsHex t}" | none => "fmterr"
-                    if md == disp then clsNote [m] else s!"MISMATCH display model={md}"
+                    -- the wire form, octet for octet (Model/MailboxEnc.lean)
+                    let mw := str hdrName ++ [58, 32] ++ MailboxEnc.headerValue hdrName.length [(n.map encodeUtf8, addrB)] ++ CRLF
+                    if md != disp then s!"MISMATCH display model={md}"
+                    else if mw != blk then s!"MISMATCH mailbox-header model={toHexField mw}"
+                    -- the recorded folding finding is reported only when nothing else is wrong
+                    else if !longLinesHaveLongToken blk then propfail "line-over-78-without-a-token-that-long"
+                    else clsNote [m]
               | _ => propfail "header-section-does-not-parse-as-one-field"
           | _ => "BADLINE"
     | _, _ => "BADLINE"
@@ -130,7 +136,6 @@ def mboxlistOp : List String → String
           | some ([(hn, _), _], _) =>
             if hn != str "To" then some "field-name-changed"
             else if !HeaderReader.linesOk true 998 blk then some "header-line-malformed-or-over-998"
-            else if !longLinesHaveLongToken blk then some "line-over-78-without-a-token-that-long"
             else none
           | _ => some "header-section-does-not-parse-as-one-field"
         | _, _, _ => some "mailbox-list-header-does-not-read-back"
@@ -150,7 +155,14 @@ def mboxlistOp : List String → String
           if l.length != ms.length || !(l.zip ms).all (fun (a, b) => sameMailbox a b) then propfail "list-reads-back-different"
           else
             let md := match showList ms with | some t => s!"ok:{charsHex t}" | none => "fmterr"
-            if md == disp then clsNote ms else s!"MISMATCH listdisplay model={md}"
+            let mw : Bytes := str "To: " ++ MailboxEnc.headerValue 2 (ms.map fun m => (m.name.map encodeUtf8, encodeUtf8 m.email)) ++ CRLF
+            let wireOk := wire == "wire:-" || (match (wire.drop 5).toString.splitOn ";" with
+              | [blockHex, _] => ofHex blockHex == some mw
+              | _ => false)
+            if md != disp then s!"MISMATCH listdisplay model={md}"
+            else if !wireOk then s!"MISMATCH mailbox-list-header model={toHexField mw}"
+            else if wire != "wire:-" && !longLinesHaveLongToken mw then propfail "line-over-78-without-a-token-that-long"
+            else clsNote ms
         | none => "BADLINE"
       | _ => propfail "displayed-list-does-not-parse"
   | l => if l.contains "PANIC" then propfail "panic" else "BADLINE"
